@@ -447,9 +447,14 @@ class Ctx:
             "wall_s": round(wall, 2),
             "violations": len(self.violations),
         }
-        os.makedirs(os.path.join(VERIF, "evidence"), exist_ok=True)
+        # runs against a scratch copy of the repository (mutation testing) must not overwrite the
+        # evidence of the real tree: they write under out/evidence-scratch/
+        evdir = os.path.join(VERIF, "evidence")
+        if os.environ.get("VERIF_REPO") or os.environ.get("VERIF_EVIDENCE_DIR"):
+            evdir = os.environ.get("VERIF_EVIDENCE_DIR") or os.path.join(VERIF, "out", "evidence-scratch")
+        os.makedirs(evdir, exist_ok=True)
         if not self.replay:
-            with open(os.path.join(VERIF, "evidence", self.pid + ".json"), "w") as f:
+            with open(os.path.join(evdir, self.pid + ".json"), "w") as f:
                 json.dump(ev, f, indent=1, sort_keys=True)
                 f.write("\n")
         return 1 if self.violations else 0
